@@ -41,14 +41,16 @@ UNIT = {
     'source': 'lib/Core/BuildEngine.cpp',
     'dumps': ['DependencyKeyIDs'],
     'types': {'KeyID': 'struct KeyID', 'DependencyKeyIDs::KeyIDAndFlags': 'struct KeyIDAndFlags', 'KeyIDAndFlags': 'struct KeyIDAndFlags'},
-    'type_patterns': [(r'(std::)?vector<KeyID.*>', 'vec_keyid'), (r'(std::)?vector<(unsigned char|uint8_t).*>', 'vec_u8')],
+    'type_patterns': [(r'__normal_iterator<(const )?KeyID \*.*', 'struct KeyID *'), (r'__normal_iterator<(const )?(unsigned char|uint8_t) \*.*', 'uint8_t *'), (r'(std::)?vector<KeyID.*>::(const_)?iterator', 'struct KeyID *'), (r'(std::)?vector<(unsigned char|uint8_t).*>::(const_)?iterator', 'uint8_t *'), (r'(std::)?vector<KeyID.*>', 'vec_keyid'), (r'(std::)?vector<(unsigned char|uint8_t).*>', 'vec_u8')],
     'by_value': ['struct KeyID', 'struct KeyIDAndFlags'],
     'predefined_structs': ['KeyID', 'KeyIDAndFlags'],
     'calls': {
         'm:@vec_keyid::clear': 'vec_keyid_clear', 'm:@vec_u8::clear': 'vec_u8_clear', 'm:@vec_keyid::size': 'vec_keyid_size', 'm:@vec_keyid::empty': 'vec_keyid_empty',
         'm:@vec_keyid::push_back': ('vec_keyid_push_back', 'v'), 'm:@vec_u8::push_back': ('vec_u8_push_back', 'v'),
-        'o:[]:@vec_keyid': '$o->ptr[$0]', 'o:[]:@vec_u8': '$o->ptr[$0]', 'm:@vec_keyid::erase': _erase, 'm:@vec_u8::erase': _erase,
+        'o:[]:@vec_keyid': '$o->ptr[$0]', 'o:[]:@vec_u8': '$o->ptr[$0]', 'm:@vec_keyid::erase': _erase, 'm:@vec_u8::erase': _erase, 'm:@vec_keyid::insert': 'vec_keyid_insert', 'm:@vec_u8::insert': 'vec_u8_insert',
+        'm:@vec_keyid::begin': '($o->ptr)', 'm:@vec_keyid::end': '($o->ptr + $o->len)', 'm:@vec_u8::begin': '($o->ptr)', 'm:@vec_u8::end': '($o->ptr + $o->len)',
     },
+    'call_patterns': [(r'c:__normal_iterator<.*', '$0')],
     'prelude': '#include "models/base.h"\n#include "models/vec.h"\n#include "models/depids.h"\n',
     'functions': {
         'DependencyKeyIDs::clear': {
@@ -76,6 +78,15 @@ UNIT = {
                           'invariant': ['$loopvar >= 0 && (size_t)$loopvar <= g_n0 && self->keys.len == (size_t)$loopvar + CNT($loopvar, ND) && self->flags.len == self->keys.len && ' + ' && '.join(_head(k) for k in range(4)) + ' && ' + ' && '.join(_tail(k) for k in range(4))],
                           'decreases': '$loopvar'}},
         },
+        'DependencyKeyIDs::append': {
+            'requires': ['__CPROVER_is_fresh(self, sizeof(*self))', 'VEC_OKN(self->keys, struct KeyID, ND)', 'VEC_OKN(self->flags, uint8_t, ND)', 'self->keys.len == self->flags.len && self->keys.len <= 2',
+                         '__CPROVER_is_fresh(rhs, sizeof(*rhs))', 'VEC_OKN(rhs->keys, struct KeyID, 2)', 'VEC_OKN(rhs->flags, uint8_t, 2)', 'rhs->keys.len == rhs->flags.len',
+                         'g_n0 == self->keys.len', ' && '.join('(%d < g_n0 ==> (g_k0[%d] == self->keys.ptr[%d]._value && g_f0[%d] == self->flags.ptr[%d]))' % (k, k, k, k, k) for k in range(2))],
+            'assigns': ['self->keys.len', 'self->flags.len', '__CPROVER_object_whole(self->keys.ptr)', '__CPROVER_object_whole(self->flags.ptr)'],
+            # the appended tuples follow the old ones, each key still paired with ITS flags (order-only / single-use)
+            'ensures': [('P:C01,P:C11', 'self->keys.len == g_n0 + rhs->keys.len && self->flags.len == self->keys.len'),
+                        ('P:C01,P:C11', ' && '.join('(%d < g_n0 ==> (self->keys.ptr[%d]._value == g_k0[%d] && self->flags.ptr[%d] == g_f0[%d]))' % (k, k, k, k, k) for k in range(2))),
+                        ('P:C01,P:C11', ' && '.join('(%d < rhs->keys.len ==> (self->keys.ptr[g_n0 + %d]._value == rhs->keys.ptr[%d]._value && self->flags.ptr[g_n0 + %d] == rhs->flags.ptr[%d]))' % (k, k, k, k, k) for k in range(2)))]},
         'DependencyKeyIDs::size': {'requires': V, 'assigns': [], 'ensures': [('P:C01', 'RESULT == self->keys.len')]},
         'DependencyKeyIDs::empty': {'requires': V, 'assigns': [], 'ensures': [('P:C01', '(RESULT != 0) == (self->keys.len == 0)')]},
     },
